@@ -302,7 +302,6 @@ class History(object):
         self.removed = {}            # segment id -> first remove event n
         self.removed_files = {}      # segment id -> set(ext)
         self.removed_file_n = {}     # file name -> n of its remove event
-        self.opened = {}             # tid -> {file: n of first open-r since the thread's last fresh open}
         self.touched = {}            # tid -> [(n, file, kind)]  open-r / stat / ram-probe of segment files
         self.inject = {}             # tid -> [events to go, pause steps]
         self.problems = []
@@ -325,12 +324,7 @@ class History(object):
                 self.removed.setdefault(m.group(1), n)
                 self.removed_files.setdefault(m.group(1), set()).add(m.group(2))
                 self.removed_file_n.setdefault(_plain(b), n)
-        elif kind == "open-r" or kind == "stat":
-            if tid is not None and SEGRE.match(b):
-                f = _plain(b)
-                self.touched.setdefault(tid, []).append((n, f, kind))
-                if kind == "open-r":
-                    self.opened.setdefault(tid, {}).setdefault(f, n)
+
         elif kind == "lock-released" and b.endswith(LOCKNAME) and tid is not None:
             mine = [c["gen"] for c in self.commits if c["tid"] == tid]
             if mine and mine[-1] > self.completed:
@@ -343,6 +337,11 @@ class History(object):
                 inj[2]["fired"] = (kind, b)
                 s.pause(inj[1])
         s.on_event(n, kind, name, detail)
+        if (kind == "open-r" or kind == "stat") and tid is not None and SEGRE.match(b):
+            # logged when the thread RESUMES (the operation executes now, without a further scheduling point): what
+            # counts for the classifier is whether the file had been removed when it was looked for, not when the
+            # look-up was announced
+            self.touched.setdefault(tid, []).append((self.tap.n, _plain(b), kind))
 
     def ram_probe(self, name):
         """RamStorage.file_exists / file_length are not tap events: logged from a harness-side wrapper."""
@@ -595,7 +594,6 @@ def open_searcher(env, rng, info, refresh_from=None):
         info["inject"] = inj
     try:
         if refresh_from is None:
-            H.opened[tid] = {}
             sr = ix.searcher()
         else:
             sr = refresh_from.refresh()
@@ -970,6 +968,7 @@ def run_proc_case(ctx, idx, rng):
     wb = {"case": idx, "kind": "process", "storage": storage, "layout": layout}
     ctx.count("proc.histories")
     child = None
+    ptap = None
     try:
         st = FileStorage(d, supports_mmap=(storage == "file-mmap"))
         ix = st.create_index(make_schema())
@@ -1007,6 +1006,17 @@ def run_proc_case(ctx, idx, rng):
         env["PYTHONPATH"] = ROOT + os.pathsep + env.get("PYTHONPATH", "")
         env["PYTHONHASHSEED"] = "0"
         env["VERIF_REPO"] = repo_root()
+        # passive tap in the parent: which segment files does a probe look for (evidence for the listed finding)
+        from vf.tap import Tap
+        ptap = Tap(root=d, unbuffered=False, track=False, keep_events=False)
+        touched = []
+
+        def p_on_event(n, kind, name, detail=None):
+            if kind in ("open-r", "stat") and SEGRE.match(_base(name)):
+                touched.append((n, _base(name)))
+        ptap.on_event = p_on_event
+        ptap.install()
+        pev = {"tap": ptap, "touched": touched, "dir": d}
         child = subprocess.Popen([sys.executable, "-m", "vf.workers.c03_writer", job], cwd=ROOT, env=env,
                                  stdout=subprocess.PIPE, stderr=subprocess.STDOUT)
         deadline = time.time() + 90
@@ -1046,11 +1056,12 @@ def run_proc_case(ctx, idx, rng):
                 mode = rng.choice(["pretouched", "lazy"])
                 errs = {}
                 parts = ALL_PARTS if mode == "pretouched" else OPEN_PARTS
+                pev["n0"] = ptap.n
                 fp0 = fingerprint(sr, parts=parts, errors=errs)
                 exp = expected(models[g], parts)
                 ctx.count("proc.open_evals")
                 if errs or differing_parts(comparable(fp0), exp):
-                    if not _proc_known(ctx, layout, w, "proc:%s" % what, fp0, exp, errs):
+                    if not _proc_known(ctx, layout, w, "proc:%s" % what, fp0, exp, errs, sr.reader(), pev):
                         ok = False
                         break
                     sr = None
@@ -1061,11 +1072,12 @@ def run_proc_case(ctx, idx, rng):
                     met_commit = True
                     ctx.count("proc.held_across_commit")
                 errs = {}
+                pev["n0"] = ptap.n
                 fp1 = fingerprint(sr, errors=errs)
                 exp = expected(models[g])
                 ctx.count("proc.held_evals")
                 if errs or differing_parts(comparable(fp1), exp) or (mode == "pretouched" and fp0 != fp1):
-                    if not _proc_known(ctx, layout, w, "proc:probe-after-hold", fp1, exp, errs):
+                    if not _proc_known(ctx, layout, w, "proc:probe-after-hold", fp1, exp, errs, sr.reader(), pev):
                         ok = False
                         break
                     sr = None
@@ -1116,20 +1128,31 @@ def run_proc_case(ctx, idx, rng):
         ctx.case(("proc", storage, layout, tuple(t["kind"] for t in script)), met_commit,
                  {"case": wb, "reader_iterations": its} if met_commit else None)
     finally:
+        if ptap is not None:
+            ptap.uninstall()
         if child is not None and child.poll() is None:
             child.kill()
             child.communicate()
         shutil.rmtree(root, ignore_errors=True)
 
 
-def _proc_known(ctx, layout, w, what, fp, exp, errs):
-    """Process variant: no tap in the parent, so the listed finding is recognised by layout + lazy parts only."""
+def _proc_known(ctx, layout, w, what, fp, exp, errs, reader, pev):
+    """Process variant: the removals happen in the other process, so the evidence for the listed finding is: during
+    the failing probe the parent looked for (open-r / stat, passive tap) a file of a LOOSE segment of this reader that
+    does not exist any more."""
     cmpfp = comparable(fp)
+    loose = set()
+    for seg in (reader.segments() or []):
+        if not seg.is_compound():
+            loose.add(seg.segment_id())
+    evidence = sorted(set(f for (n, f) in pev["touched"] if n > pev["n0"] and SEGRE.match(f).group(1) in loose
+                          and not os.path.exists(os.path.join(pev["dir"], f))))
     bad = [p for p in differing_parts(cmpfp, dict((p, exp[p]) for p in exp if p in cmpfp or p not in errs)) if p not in errs]
     lazy_only = all(p in COLUMN_BACKED for p in bad + sorted(errs))
     w = dict(w)
     w.update({"what": what, "parts_differing": bad, "parts_raising": dict((p, repr(e)[:200]) for p, e in errs.items())})
-    if layout != "compound" and lazy_only:
+    w["removed_files_first_looked_for_by_this_probe"] = evidence[:6]
+    if layout != "compound" and lazy_only and evidence:
         ctx.count("known.loose_lazy.proc")
         ctx.fail("held-snapshot", KNOWN_LOOSE, w)
         return True
